@@ -10,14 +10,14 @@ storage server, C22); repair itself is download (C02) followed by `upload` with 
 `VCfg.asIs` is the verifier as it was before the fix, `VCfg.repaired` the verifier as it is in /repo now (fix fb3513d =
 fixes/C45-verify-block-root.diff: the block hash tree root is taken from the validated share hash leaf).
 
-As built: 23 theorems (one `_partial`) — `verified_good_implies_all_valid` (+ `verified_good_counterexample` for the old verifier),
+As built: 24 theorems (one `_partial`) — `verified_good_implies_all_valid` (+ `verified_good_counterexample` for the old verifier),
 `healthy_iff_N_good`, `recoverable_iff_k_good`, `corrupt_shares_listed`, `noverify_believes_servers`,
 `recoverable_unhealthy_repair_attempted`, `repair_uses_original_parameters`, `repair_regenerates_identical_shares`,
 `post_repair_healthy_implies_N_good`, `repair_never_alters_good_shares`, `repair_output_is_encoder_output`,
 `repaired_share_passes_ct_stage`, `repaired_share_passes_block_hash_stage`, `repaired_share_passes_share_hash_stage`,
 `repaired_share_block_accepted`, `repaired_share_block_fetch_chain`, `validation_stages_keep_trees_closed`,
 `anchored_repaired_share_delivers_block`, `fresh_repaired_share_delivers_block`, `tail_stages_deliver_block`,
-`repaired_share_passes_ct_stage_any`, `readable_from_repaired_shares_partial`. Further model parts: `checkServerShares` /
+`repaired_share_passes_ct_stage_any`, `known_chain_repaired_share_delivers_block`, `readable_from_repaired_shares_partial`. Further model parts: `checkServerShares` /
 `checkNoVerify`, `repairDecision`, `repairParams`, `gatherRepairResults`, `corruptLocators`. Driver lean/Drv/C45.lean
 (`veup`, `fmt`, `fmtlists`, `noverify`, `verify`, `repairdecision`, `repairparams`, `postrepair`, `repair`) ties each
 of them to the code. Only partially proved (monitor end to end): that the file can be read from the repaired shares alone. -/
@@ -29,7 +29,7 @@ of them to the code. Only partially proved (monitor end to end): that the file c
 | a check is healthy exactly when N distinct good shares are found | `healthy_iff_N_good` (+ the good list is duplicate-free and is exactly the share numbers some server's result lists) |
 | … recoverable exactly when at least k are | `recoverable_iff_k_good` |
 | repair using only the verify-cap produces shares that validate under the original read-cap | `repair_uses_original_parameters` (k, N from the cap, segment size from the VALIDATED UEB — seed C45-b) + `repair_regenerates_identical_shares` (a completed repair read re-publishes exactly the original cap, UEB, trees and blocks); neither uses the read key |
-| … so the file can be read from the repaired shares alone | PARTIAL: `repair_output_is_encoder_output` (repaired shares = the uploader's shares, parameters included), `repaired_share_passes_share_hash_stage`, `repaired_share_passes_block_hash_stage`, `repaired_share_passes_ct_stage`, `repaired_share_block_accepted` (completeness of every validation stage of `Share._satisfy_*` for such shares: share hash chain, block hash tree, crypttext hash tree, data block; C35 `tryBody_complete`), `repaired_share_block_fetch_chain` (block-hash stage then data stage chained on the node the first leaves behind), `validation_stages_keep_trees_closed` (`Closed`, the premise of the four acceptance theorems, is an invariant of every tree-writing stage whatever the share answers; `TreeOK` / `NodeInv` already are), `anchored_repaired_share_delivers_block` and `fresh_repaired_share_delivers_block` (one whole `_get_satisfaction` pass threaded through all eight stages, for a share already anchored and for a share seen for the first time: a repaired share is answered with exactly the published block; helper `tail_stages_deliver_block`), `readable_from_repaired_shares_partial` (one share set; a read over it writes only a prefix of the file and `done` ⇒ the file). Missing links named there: composing all four stage theorems along one whole `satisfy` run and over a fetch history (the two block-tree stages are chained: `repaired_share_block_fetch_chain`; closedness of every tree is a proved stage invariant — `validation_stages_keep_trees_closed` — and one whole pass is threaded through `runStages` for an already anchored share — `anchored_repaired_share_delivers_block` — and for a share seen for the first time — `fresh_repaired_share_delivers_block`; what is missing is the induction over the per-segment history (`fetchSegment` over k shares) that re-establishes the premises of those two theorems for every pass), decoding (`Tahoe.C36.immutable_any_k_blocks_decode_rs256`), termination (C03/C46); end to end this clause stays with the monitor (read from repaired shares only) |
+| … so the file can be read from the repaired shares alone | PARTIAL: `repair_output_is_encoder_output` (repaired shares = the uploader's shares, parameters included), `repaired_share_passes_share_hash_stage`, `repaired_share_passes_block_hash_stage`, `repaired_share_passes_ct_stage`, `repaired_share_block_accepted` (completeness of every validation stage of `Share._satisfy_*` for such shares: share hash chain, block hash tree, crypttext hash tree, data block; C35 `tryBody_complete`), `repaired_share_block_fetch_chain` (block-hash stage then data stage chained on the node the first leaves behind), `validation_stages_keep_trees_closed` (`Closed`, the premise of the four acceptance theorems, is an invariant of every tree-writing stage whatever the share answers; `TreeOK` / `NodeInv` already are), `anchored_repaired_share_delivers_block` and `fresh_repaired_share_delivers_block` (one whole `_get_satisfaction` pass threaded through all eight stages, for a share already anchored and for a share seen for the first time: a repaired share is answered with exactly the published block; helper `tail_stages_deliver_block`), `readable_from_repaired_shares_partial` (one share set; a read over it writes only a prefix of the file and `done` ⇒ the file). Missing links named there: composing all four stage theorems along one whole `satisfy` run and over a fetch history (the two block-tree stages are chained: `repaired_share_block_fetch_chain`; closedness of every tree is a proved stage invariant — `validation_stages_keep_trees_closed` — and one whole pass is threaded through `runStages` for an already anchored share — `anchored_repaired_share_delivers_block` — for a share seen for the first time — `fresh_repaired_share_delivers_block` — and for a new share whose chain other shares already supplied — `known_chain_repaired_share_delivers_block`; what is missing is the induction over the per-segment history (`fetchSegment` over k shares) that re-establishes the premises of those two theorems for every pass), decoding (`Tahoe.C36.immutable_any_k_blocks_decode_rs256`), termination (C03/C46); end to end this clause stays with the monitor (read from repaired shares only) |
 | … and it never alters existing good shares | `repair_never_alters_good_shares` (abstract storage behaviour; refinement by the storage server is C22) |
 | a recoverable, unhealthy file gets a repair attempt, whatever the number of servers holding the good shares (seed C45-d) | `recoverable_unhealthy_repair_attempted` |
 | the post-repair results describe the grid after the repair (seed C45-c) | `post_repair_healthy_implies_N_good` |
@@ -627,6 +627,85 @@ theorem fresh_repaired_share_delivers_block (E : Env H) (cfg : Cfg) (prm : Param
     (by rw [(setBlockTree_known nd' shnum _).2.2, hct']; exact hctsc)
     hcthonest hblock hsize
 
+/-- **known_chain_repaired_share_delivers_block** (the third kind of pass: the share is new to the node but its share
+    hash chain is already held because other shares supplied it): the share hash stage has nothing to ask, the leaf
+    of `shnum` is held (sibling-closedness), the block hash root is taken from it, and the remaining stages follow.
+    With `anchored_…` (share seen before) and `fresh_…` (chain not yet held) every pass of `_get_satisfaction` over a
+    repaired share of a file of at least two segments is covered. -/
+theorem known_chain_repaired_share_delivers_block (E : Env H) (cfg : Cfg) (prm : Params) (ser : UEB H → Bytes)
+    (encode : Nat → Bytes → Nat → Bytes) (ct : Bytes) (sz : Sizes) (S : Setup E cfg prm ser encode ct sz)
+    (Prep : Published H) (hrep : Prep = upload E prm encode ser ct)
+    (pick : List Nat → Nat) (shnum segnum : Nat) (v : View H) (nd : Node H) (u : UEB H)
+    (hk : nd.known = some (u, sz)) (hseg : segnum < sz.numSegs) (h2 : 2 ≤ sz.numSegs) (hsh : shnum < prm.n)
+    (hoff : satisfyOffsets v.version v.offs = none)
+    (hshare : TreeOK E.ops Prep.shareT nd.shareTree) (hshsc : SibClosed nd.shareTree)
+    (hempty : (neededHashes nd.shareTree (firstLeafNum prm.n + shnum)).isEmpty = true)
+    (hbt : nd.blockTree shnum sz.numSegs = newTree H sz.numSegs)
+    (hhonest : ∀ i, i < (Prep.blockT shnum).length → v.blockHashes i = Base.Merkle.get (Prep.blockT shnum) i)
+    (hctlen : nd.ctTree.length = Prep.ctT.length) (hctag : Agree nd.ctTree Prep.ctT) (hctcl : Closed nd.ctTree)
+    (hctsc : SibClosed nd.ctTree)
+    (hcthonest : ∀ i, i < Prep.ctT.length → v.ctHashes i = Base.Merkle.get Prep.ctT i)
+    (hblock : v.block = Prep.block shnum segnum)
+    (hsize : ¬ (v.block.isEmpty ∨
+      v.block.length ≠ (if segnum + 1 = sz.numSegs then sz.tailBlockSize else sz.blockSize))) :
+    (satisfy E cfg pick Prep.cap nd shnum segnum v).1 = .block (Prep.block shnum segnum) := by
+  subst hrep
+  have hn : (upload E prm encode ser ct).cap.n = prm.n := rfl
+  unfold satisfy stages
+  rw [runStages_cons_none (by simp only [hoff])]
+  simp only [hoff]
+  have e2 : stageUEB E (upload E prm encode ser ct).cap v nd = (none, nd) := by unfold stageUEB; rw [hk]
+  rw [runStages_cons_none (by rw [e2]), e2]
+  have e3 : stageSegnum segnum nd = (none, nd) := by
+    unfold stageSegnum; rw [hk]; simp only; rw [if_neg (by omega)]
+  rw [runStages_cons_none (by rw [e3]), e3]
+  have hL : ¬ (firstLeafNum (upload E prm encode ser ct).cap.n + shnum ≥ nd.shareTree.length) := by
+    rw [hn, hshare.2.1, upload_shareT, Integrity.build_length]
+    have hl : (shareLeaves E prm encode ct).length = prm.n := by simp [shareLeaves]
+    rw [hl]
+    have := roundupPow2_ge prm.n
+    have := roundupPow2_pos prm.n
+    unfold firstLeafNum; omega
+  have e4 : stageShareTree E cfg pick (upload E prm encode ser ct).cap shnum v nd = (none, nd) := by
+    unfold stageShareTree; rw [if_neg hL, if_pos (by rw [hn]; exact hempty)]
+  rw [runStages_cons_none (by rw [e4]), e4]
+  -- the leaf of `shnum` is held: it is the root, or the sibling of a held member of its own uncle chain
+  have hheld : Base.Merkle.get nd.shareTree (firstLeafNum prm.n + shnum) ≠ none := by
+    by_cases h0 : firstLeafNum prm.n + shnum = 0
+    · rw [h0]; exact hshare.2.2.2
+    · have hmem : sibling (firstLeafNum prm.n + shnum) ∈ neededFor (firstLeafNum prm.n + shnum) :=
+        mem_neededFor.mpr ⟨_, Anc.self _, h0, rfl⟩
+      have hsibknown : Base.Merkle.get nd.shareTree (sibling (firstLeafNum prm.n + shnum)) ≠ none := by
+        intro hnone
+        have : sibling (firstLeafNum prm.n + shnum) ∈ neededHashes nd.shareTree (firstLeafNum prm.n + shnum) :=
+          mem_neededHashes.mpr ⟨hmem, hnone⟩
+        rw [List.isEmpty_iff.mp hempty] at this
+        cases this
+      have := hshsc _ (sibling_ne_zero h0) hsibknown
+      rw [sibling_sibling h0] at this
+      exact this
+  obtain ⟨r, hr⟩ : ∃ r, Base.Merkle.get nd.shareTree (firstLeafNum prm.n + shnum) = some r := by
+    cases hg : Base.Merkle.get nd.shareTree (firstLeafNum prm.n + shnum) with
+    | none => exact absurd hg hheld
+    | some r => exact ⟨r, rfl⟩
+  have e5 := stageBlockRoot_fresh E cfg pick (upload E prm encode ser ct).cap shnum nd hk hbt hr
+  have hok2 := (stageBlockRoot_sound (cfg := cfg) S.strict S.inj pick shnum hsh nd hk
+    (calcSizes_numSegs S.sizes) hshare (Or.inl hbt) _ e5).2.2
+  rw [runStages_cons_none (by rw [e5]), e5]
+  have hL0 : 0 ≠ firstLeafNum sz.numSegs + segnum := by
+    have := roundupPow2_ge sz.numSegs
+    unfold firstLeafNum; omega
+  exact tail_stages_deliver_block E cfg prm ser encode ct sz S _ rfl pick shnum segnum v _ u
+    (by rw [(setBlockTree_known nd shnum _).1]; exact hk) hseg hok2
+    (by rw [blockTree_set_same]; exact seed_closed _ _)
+    (by rw [blockTree_set_same]; unfold seed; rw [get_set_ne _ hL0, get_newTree])
+    hhonest
+    (by rw [(setBlockTree_known nd shnum _).2.2]; exact hctlen)
+    (by rw [(setBlockTree_known nd shnum _).2.2]; exact hctag)
+    (by rw [(setBlockTree_known nd shnum _).2.2]; exact hctcl)
+    (by rw [(setBlockTree_known nd shnum _).2.2]; exact hctsc)
+    hcthonest hblock hsize
+
 /-- a two-segment file replicated on two shares (1-of-2, symbolic hashes) for the non-vacuity check of
     `fresh_repaired_share_delivers_block`: the share hash chain of share 0 is its own leaf and the leaf of share 1 -/
 def ex2Prm : Params := { k := 1, n := 2, segSize := 2 }
@@ -652,6 +731,18 @@ example :
     (satisfy ex2E Cfg.asIs (fun _ => 0) P.cap nd 0 1
       { ex2Honest 0 1 with shareHashes := ((ex2Honest 0 1).shareHashes.map (fun e => (e.1, SymH.raw 99))) }).1
       = .dead .badHash := by decide
+
+/-- non-vacuity of `known_chain_repaired_share_delivers_block` (and of the held-leaf branch of
+    `repaired_share_passes_ct_stage_any`): after segment 1 was fetched from share 0 of the 1-of-2 file, share 1 is
+    new to the node, its share hash chain is already held, the crypttext leaf of segment 1 is held — and share 1 is
+    answered with its published block of segment 1 -/
+example :
+    let P := upload ex2E ex2Prm C02.exEncode C02.exSer C02.exCt
+    let dec : Nat → List (Nat × Bytes) → Bytes := fun _ bl => (bl.head?.map (·.2)).getD []
+    let nd := C02.nodeAfter ex2E Cfg.asIs (fun _ => 0) dec P.cap [(1, [(0, ex2Honest 0 1)])]
+    nd.known.isSome ∧ (neededHashes nd.shareTree (firstLeafNum 2 + 1)).isEmpty = true ∧
+    nd.blockTree 1 2 = newTree SymH 2 ∧ (Base.Merkle.get nd.ctTree (firstLeafNum 2 + 1)).isSome = true ∧
+    (satisfy ex2E Cfg.asIs (fun _ => 0) P.cap nd 1 1 (ex2Honest 1 1)).1 = .block (P.block 1 1) := by decide
 
 /-- **readable_from_repaired_shares_partial**.  Full statement (NOT proved): after a repair that reports success,
     every read that is offered any k distinct shares out of the old and the repaired ones ends `done` with the
